@@ -8,7 +8,7 @@ import scipy.spatial.distance
 import menelaus.data_drift.pca_cd as pca_cd_mod
 from menelaus.data_drift.pca_cd import PCACD
 from . import coqgen as G
-from .common import feq, lifecycle_obs, MISSING
+from .common import rebound, feq, lifecycle_obs, MISSING
 
 ID = "C11"
 PROPS = ["Prop_C11"]
@@ -120,16 +120,15 @@ def _mk_wrappers(log):
 
 @contextlib.contextmanager
 def logged(log):
-    """replace the library names that pca_cd.py imported by logging subclasses, for the duration of one run"""
-    names = ("StandardScaler", "PCA", "KernelDensity", "jensenshannon")
-    saved = {k: getattr(pca_cd_mod, k) for k in names}
+    """replace the library classes / functions pca_cd.py uses by logging subclasses for the duration of one run: at
+    their source modules and under whatever names the library bound them (common.rebound)"""
     sc, pca, kde, js = _mk_wrappers(log)
-    pca_cd_mod.StandardScaler, pca_cd_mod.PCA, pca_cd_mod.KernelDensity, pca_cd_mod.jensenshannon = sc, pca, kde, js
-    try:
+    with contextlib.ExitStack() as st:
+        st.enter_context(rebound(sklearn.preprocessing, "StandardScaler", sc))
+        st.enter_context(rebound(sklearn.decomposition, "PCA", pca))
+        st.enter_context(rebound(sklearn.neighbors, "KernelDensity", kde))
+        st.enter_context(rebound(scipy.spatial.distance, "jensenshannon", js))
         yield
-    finally:
-        for k, v in saved.items():
-            setattr(pca_cd_mod, k, v)
 
 
 # ------------------------------------------------------------------ implementation side
@@ -207,9 +206,12 @@ def run_impl(case):
     with logged(log):
         d = make(case)
         inter = case["params"]["divergence_metric"] == "intersection"
-        obs = {"step": d.step, "ph_threshold": d.ph_threshold, "bins": d.bins,
-               "mon_params": [float(d._drift_detection_monitor.delta), d._drift_detection_monitor.threshold,
-                              d._drift_detection_monitor.burn_in, d._drift_detection_monitor.direction]}
+        mon0 = getattr(d, "_drift_detection_monitor", None)      # private, optional
+        try:
+            mon_params = None if mon0 is None else [float(mon0.delta), mon0.threshold, mon0.burn_in, mon0.direction]
+        except AttributeError:
+            mon_params = None
+        obs = {"step": d.step, "ph_threshold": d.ph_threshold, "bins": d.bins, "mon_params": mon_params}
         scaled = False     # are the private windows currently in the scaler's coordinates?
         for i in range(len(raw)):
             k0 = len(log.calls)
@@ -254,7 +256,10 @@ def run_impl(case):
                     continue
                 row[nm + "_len"] = len(w)
                 if len(w) and scaled:
-                    sc = d._reference_scaler
+                    sc = getattr(d, "_reference_scaler", None)
+                    if sc is None:          # contents cannot be mapped back to stream rows: length only
+                        row[nm + "_starts"] = None
+                        continue
                     w = w * sc.scale_ + sc.mean_
                 row[nm + "_starts"] = _starts(raw, w) if len(w) and w.shape[1] == raw.shape[1] else []
             # supports and histograms (public lower/upper; densities private)
@@ -521,7 +526,7 @@ def direct_check(case, obs):
     if obs["bins"] != sp["bins"]:
         msgs.append(f"bins = {obs['bins']!r}, but floor(sqrt(window_size)) = {sp['bins']}")
     mp = obs["mon_params"]
-    if not (feq(mp[0], p["delta"]) and mp[1] == sp["thr"] and mp[2] == 0 and mp[3] == "positive"):
+    if mp is not None and not (feq(mp[0], p["delta"]) and mp[1] == sp["thr"] and mp[2] == 0 and mp[3] == "positive"):
         msgs.append(f"embedded Page-Hinkley built with (delta, threshold, burn_in, direction) = {mp}, expected ({p['delta']}, {sp['thr']}, 0, 'positive')")
     if msgs:
         return msgs
@@ -581,7 +586,7 @@ def direct_check(case, obs):
                 continue
             if ln != len(e[nm]):
                 return [f"{where}: {nm} window holds {ln} rows, specification says {len(e[nm])}"]
-            if ln and not _is_range_in(r.get(nm + "_starts", []), e[nm]):
+            if ln and r.get(nm + "_starts", []) is not None and not _is_range_in(r.get(nm + "_starts", []), e[nm]):
                 return [f"{where}: {nm} window content is the stream rows starting at {r.get(nm + '_starts')}, specification says rows {e[nm][0]}..{e[nm][-1]}"]
         m, em = r.get("mon"), e["mon"]
         if m is not None:
@@ -636,7 +641,7 @@ def _hists(hs):
 
 def _win(r, nm):
     ln = r.get(nm + "_len")
-    if ln is None:
+    if ln is None or r.get(nm + "_starts", []) is None:
         return "None"
     return f"(Some ({G.z(ln)}, {G.zlist(r.get(nm + '_starts', []))}))"
 
